@@ -175,6 +175,12 @@ pub fn record(output: &str) {
                 let lim_same = match kws.constraints() { Some(c) => c.from == case.from && c.to == case.to, None => false };
                 let qs: Joints = [q[0], q[1], q[2], q[3], 0.0, q[5]];
                 let sing_same = kws.kinematic_singularity(&qs).is_some() && kws.kinematic_singularity(&q).is_some() == (q[4].sin().abs() < 1.7e-4);
+                // the pair reports of the robot with shape are the body's own (same kinematics, same joints)
+                let norm = |v: Vec<(usize, usize)>| { let mut v: Vec<(usize, usize)> = v.into_iter().map(|p| (p.0.min(p.1), p.0.max(p.1))).collect(); v.sort(); v };
+                let wide = SafetyDistances { to_environment: 0.3, to_robot_default: 0.05, special_distances: kws.body.safety.special_distances.clone(), mode: CheckMode::AllCollsions };
+                let first_only = kws.body.safety.mode == CheckMode::FirstCollisionOnly;
+                let details_same = first_only || norm(kws.collision_details(&q)) == norm(kws.body.collision_details(&q, kws.kinematics.as_ref()));
+                let near_same = norm(kws.near(&q, &wide)) == norm(kws.body.near(&q, kws.kinematics.as_ref(), &wide));
                 let pr = kws.positioned_robot(&q);
                 let mut pos_ok = pr.joints.len() == 6 && pr.tool.is_some() && pr.environment.len() == kws.body.collision_environment.len();
                 for i in 0..6.min(pr.joints.len()) {
@@ -186,7 +192,7 @@ pub fn record(output: &str) {
                     "inner": inner.iter().map(au6).collect::<Vec<_>>(), "outer": outer.iter().map(au6).collect::<Vec<_>>(),
                     "collides": coll, "collides_body": coll_body, "outer_exact_subsequence": is_subsequence(&outer, &inner, &coll),
                     "fwd_n": nano(f.dpos(&want).max(f.drot(&want))), "links_n": nano(link_err), "limits_same": lim_same, "sing_same": sing_same, "positioned_ok": pos_ok, "rep": rep,
-                    "checking": checking, "reconfigured": reconfigured, "pool": pool, "nenv": kws.body.collision_environment.len()}));
+                    "checking": checking, "reconfigured": reconfigured, "details_same": details_same, "near_same": near_same, "pool": pool, "nenv": kws.body.collision_environment.len()}));
             }
         }
     }
